@@ -145,8 +145,10 @@ def apply_upd(u, p):
     if t is not None:
         if isinstance(t, int):
             p["time"] = t
-        elif hasattr(t, "tzinfo"):
-            p["time"] = us_of(t)
+        elif hasattr(t, "tzinfo") and t.tzinfo is not None:
+            from dbmodel import EPOCH
+            from datetime import timedelta
+            p["time"] = (t - EPOCH) // timedelta(microseconds=1)      # the instant, whatever zone it is expressed in
         else:
             raise Undefined()
     m = val("meas", p["meas"])
